@@ -1319,13 +1319,21 @@ func runHandler(c *kit.Case, vc *kit.VClock) {
 	var code int
 	var lat time.Duration
 	var runs int
+	var pan any        // when set, the handler panics with it: after having answered with `code` ...
+	var panBefore bool // ... or before writing anything
 	next := http.HandlerFunc(func(w http.ResponseWriter, req *http.Request) {
 		runs++
 		if lat > 0 {
 			vc.Advance(lat)
 		}
+		if pan != nil && panBefore {
+			panic(pan) // nothing written at all
+		}
 		w.WriteHeader(code)
 		w.Write([]byte("body"))
+		if pan != nil {
+			panic(pan)
+		}
 	})
 	hd := handler.BreakerHandler(http.MethodGet, path, sharedMetrics)(next)
 	h.m = newModel(vc.Now())
@@ -1333,8 +1341,10 @@ func runHandler(c *kit.Case, vc *kit.VClock) {
 	L := r.Range(20, 200)
 	pFail := kit.Choose(r, []float64{0.3, 0.6, 0.9, 1})
 	g := newGen(r)
+	effectPanic := 0 // effectiveness runs: 0 = answers 5xx, 1 = 5xx then panic, 2 = panic before writing, 3 = 2xx/4xx then panic
 	if effect {
 		L, pFail = 1060, 1
+		effectPanic = r.Intn(4)
 	}
 	rejTail := 0
 	for i := 0; i < L && !c.Violated(); i++ {
@@ -1354,11 +1364,41 @@ func runHandler(c *kit.Case, vc *kit.VClock) {
 			lat = kit.Choose(r, []time.Duration{bucketDur, time.Second + 1})
 		}
 		runs = 0
+		// a handler that answers 5xx and then panics: the panic passes through the breaker
+		// middleware (no recover middleware in between), must come back unchanged and the
+		// request still counts as one failure
+		// (a panic counts as a failure whatever the handler had answered before: a 5xx, a 2xx or nothing)
+		pan, panBefore = nil, false
+		if fail && (effectPanic > 0 || (!effect && r.Chance(0.25))) {
+			pan = &panicTok{id: i}
+			kind := effectPanic
+			if kind == 0 {
+				kind = 1 + r.Intn(3)
+			}
+			switch kind {
+			case 2:
+				panBefore = true
+			case 3:
+				code = kit.Choose(r, []int{200, 201, 404})
+			}
+		}
 		t := vc.Now()
 		p := h.m.pre(t)
 		rec := httptest.NewRecorder()
-		hd.ServeHTTP(rec, httptest.NewRequest(http.MethodGet, path, nil))
-		desc := fmt.Sprintf("+%v GET -> handler answers %d lat=%v", gap, code, lat)
+		var recovered any
+		func() {
+			defer func() { recovered = recover() }()
+			hd.ServeHTTP(rec, httptest.NewRequest(http.MethodGet, path, nil))
+		}()
+		desc := fmt.Sprintf("+%v GET -> handler answers %d lat=%v panics=%v", gap, code, lat, pan != nil)
+		if runs == 1 && pan != nil {
+			c.Obs("handler_panics_through_middleware", 1)
+			if recovered != pan {
+				c.Viol("C01/handler/panic-not-reraised", fmt.Sprintf("handler panicked with %v, the caller of the middleware recovered %v", pan, recovered), h.witness(""))
+			}
+		} else if recovered != nil {
+			panic(recovered)
+		}
 		c.Obs("handler_requests", 1)
 		if p.legal {
 			h.legal++
@@ -1366,11 +1406,11 @@ func runHandler(c *kit.Case, vc *kit.VClock) {
 		switch {
 		case runs == 1:
 			h.log = append(h.log, fmt.Sprintf("%s -> served [A=%d N=%d]", desc, p.A, p.N))
-			if rec.Code != code || rec.Body.String() != "body" {
+			if !panBefore && (rec.Code != code || rec.Body.String() != "body") {
 				c.Viol("C01/handler/response-changed", fmt.Sprintf("handler answered %d, client saw %d %q", code, rec.Code, rec.Body.String()), h.witness(""))
 			}
 			h.m.admitted(p)
-			if code < 500 {
+			if code < 500 && pan == nil {
 				h.m.mark(0, vc.Now())
 			} else {
 				h.m.mark(1, vc.Now())
@@ -1401,8 +1441,9 @@ func runHandler(c *kit.Case, vc *kit.VClock) {
 	if effect && !c.Violated() {
 		c.Obs("effectiveness_runs", 1)
 		if rejTail*100 < 1000*80 {
-			c.Viol("C01/effectiveness/rest-breakerhandler", fmt.Sprintf("1000 consecutive 5xx answers at 100 per virtual second after a 60-request warm-up: only %d requests dropped", rejTail),
-				map[string]any{"dropped": rejTail, "statistical": true})
+			cls := []string{"", "/5xx-then-panic", "/panic-before-any-write", "/non-5xx-then-panic"}[effectPanic]
+			c.Viol("C01/effectiveness/rest-breakerhandler"+cls, fmt.Sprintf("1000 consecutive failing requests (5xx answers resp. panicking handlers: %q) at 100 per virtual second after a 60-request warm-up: only %d requests dropped", cls, rejTail),
+				map[string]any{"dropped": rejTail, "statistical": true, "failure_kind": cls})
 		}
 	}
 	h.calls = int64(L)
